@@ -178,6 +178,8 @@ func c07Class(c c07Case, p verifgen.HTMLPlanted) string {
 	switch {
 	case p.Pad == "srcset-ws":
 		return "srcset-descriptor-after-tab-or-newline"
+	case p.Pad != "" && p.Attr == "srcset":
+		return "" // white space around a srcset value is part of the srcset grammar and is handled
 	case p.Pad != "" && p.Kind == "outlink":
 		return "padded-a-href"
 	case p.Pad != "" && p.Elem == "style":
@@ -199,10 +201,10 @@ func c07Class(c c07Case, p verifgen.HTMLPlanted) string {
 // c07Key maps a class to the key of its known_findings.json entry.
 var c07Key = map[string]string{
 	"style-scheme-relative-on-https":           "C07-style-scheme-relative-http",
-	"padded-a-href":                            "C07-padded-attribute-whitespace",
-	"padded-asset-attribute":                   "C07-padded-attribute-whitespace",
-	"padded-style-url":                         "C07-padded-css-url-whitespace",
-	"padded-style-attr-url":                    "C07-padded-css-url-whitespace",
+	"padded-a-href":                            "C07-padded-a-href",
+	"padded-asset-attribute":                   "C07-padded-asset-attribute",
+	"padded-style-url":                         "C07-padded-css-url",
+	"padded-style-attr-url":                    "C07-padded-css-url",
 	"style-attr-url-with-percent":              "C07-style-attr-percent",
 	"outlinks-dropped-when-assets-capture-off": "C07-no-outlinks-when-assets-off",
 	"srcset-descriptor-after-tab-or-newline":   "C07-srcset-descriptor-whitespace",
@@ -257,7 +259,7 @@ func c07Check(t veriflib.TB, facet string, c c07Case, kinds string) {
 			classes = append(classes, "amp:"+p.Amp)
 		}
 		if p.Pad != "" {
-			classes = append(classes, "pad:"+p.Pad)
+			classes = append(classes, fmt.Sprintf("pad:%q", p.Pad))
 		}
 	}
 	combos := c07Combos(c, kinds)
@@ -302,7 +304,7 @@ func c07Where(p verifgen.HTMLPlanted) string {
 		s += " inside " + p.Within
 	}
 	if p.Pad != "" {
-		s += " padded " + p.Pad
+		s += fmt.Sprintf(" padded %q", p.Pad)
 	}
 	return s
 }
@@ -385,7 +387,7 @@ func TestVerif_C07_Assets(t *testing.T) {
 
 // (b) anchors are handed over as outlinks, resolved against the page, while hops < max-hops.
 func TestVerif_C07_Outlinks(t *testing.T) {
-	c07Facet(t, "C07/outlinks", func(t *rapid.T) c07Case { return genC07Default(t, verifgen.HTMLOpts{}) }, "outlink")
+	c07Facet(t, "C07/outlinks", func(t *rapid.T) c07Case { return genC07Default(t, verifgen.HTMLOpts{Anchors: true}) }, "outlink")
 }
 
 // (c) settings: --disable-html-tag lists, --capture-alternate-pages, --disable-assets-capture, hop limits. A switch
@@ -400,10 +402,97 @@ func TestVerif_C07_PaddedAssets(t *testing.T) {
 }
 
 func TestVerif_C07_PaddedOutlinks(t *testing.T) {
-	c07Facet(t, "C07/padded-outlinks", func(t *rapid.T) c07Case { return genC07Default(t, verifgen.HTMLOpts{Pad: true}) }, "outlink")
+	c07Facet(t, "C07/padded-outlinks", func(t *rapid.T) c07Case { return genC07Default(t, verifgen.HTMLOpts{Pad: true, Anchors: true}) }, "outlink")
 }
 
 // (e) separate class: tab / newline between a srcset URL and its descriptor.
 func TestVerif_C07_SrcsetWS(t *testing.T) {
 	c07Facet(t, "C07/srcset-ws", func(t *rapid.T) c07Case { return genC07Default(t, verifgen.HTMLOpts{SrcsetWS: true}) }, "asset")
+}
+
+// ---- strict sub-checks of the open known findings (one minimal concrete document each) ---------------
+// Run by the driver with VERIF_STRICT=1 while the finding is listed as open; each is expected to fail with its
+// class label in the message. Once the defect is repaired the entry becomes "fixed" and the class is simply part of
+// the facets above.
+
+func c07KFCase(page verifgen.WFAbs, place string, node verifgen.HTMLNode, p verifgen.HTMLPlanted) c07Case {
+	p.Token, p.Text, p.Place, p.TokIn = "zt1", p.Ref.Text(), place, "path"
+	c := c07Case{Page: page, Hops: 0, MaxHops: 1, Doc: verifgen.HTMLDoc{Planted: []verifgen.HTMLPlanted{p}}}
+	if place == "head" {
+		c.Doc.Head = []verifgen.HTMLNode{node}
+	} else {
+		c.Doc.Body = []verifgen.HTMLNode{node}
+	}
+	return c
+}
+
+func c07KFRun(t *testing.T, facet string, c c07Case) {
+	defer veriflib.Flush()
+	if veriflib.Replaying() {
+		var rc c07Case
+		if !veriflib.ReplayCase(facet, &rc) {
+			t.Skip()
+		}
+		c = rc
+	}
+	c07Check(t, facet, c, "")
+}
+
+var c07KFPage = verifgen.WFAbs{Scheme: "https", Host: "example.com", Segs: []string{"dir", "index.html"}}
+
+// candidate 17: <style> url(//host/x) on an https page is requested over http.
+func TestVerifKF_C07_StyleSchemeRelative(t *testing.T) {
+	ref := verifgen.WFRef{Kind: "scheme-rel", Abs: &verifgen.WFAbs{Scheme: "https", Host: "cdn.site.net", Segs: []string{"img", "zt1.png"}}}
+	node := verifgen.HTMLNode{Tag: "style", Text: "body { background: url(" + ref.Text() + ") }"}
+	c07KFRun(t, "C07/kf-style-scheme-relative-http", c07KFCase(c07KFPage, "head", node,
+		verifgen.HTMLPlanted{Kind: "asset", Elem: "style", Attr: "url()", Tag: "style", Quote: "css-bare", Ref: ref}))
+}
+
+// candidate 18: <a href=" img/x.png "> — surrounding white space is kept (and percent-encoded) instead of stripped.
+func TestVerifKF_C07_PaddedAHref(t *testing.T) {
+	ref := verifgen.WFRef{Kind: "path-rel", Segs: []string{"img", "zt1.png"}}
+	node := verifgen.HTMLNode{Tag: "a", Attrs: []verifgen.HTMLAttr{{Name: "href", Value: " " + ref.Text() + " ", Quote: `"`}}, Kids: []verifgen.HTMLNode{{Tag: "#text", Text: "x"}}}
+	c07KFRun(t, "C07/kf-padded-a-href", c07KFCase(c07KFPage, "body", node,
+		verifgen.HTMLPlanted{Kind: "outlink", Elem: "a", Attr: "href", Tag: "a", Quote: "dq", Pad: " | ", Ref: ref}))
+}
+
+// <img src=" https://host/x.png"> — a padded absolute URL (or any value padded with tab / newline) is dropped.
+func TestVerifKF_C07_PaddedAssetAttribute(t *testing.T) {
+	ref := verifgen.WFRef{Kind: "abs", Abs: &verifgen.WFAbs{Scheme: "https", Host: "cdn.site.net", Segs: []string{"img", "zt1.png"}}}
+	node := verifgen.HTMLNode{Tag: "img", Attrs: []verifgen.HTMLAttr{{Name: "src", Value: " " + ref.Text(), Quote: `"`}}}
+	c07KFRun(t, "C07/kf-padded-asset-attribute", c07KFCase(c07KFPage, "body", node,
+		verifgen.HTMLPlanted{Kind: "asset", Elem: "img", Attr: "src", Tag: "img", Quote: "dq", Pad: " |", Ref: ref}))
+}
+
+// style="background: url( 'img/x.png' )" — white space inside the parentheses keeps the quotes in the URL.
+func TestVerifKF_C07_PaddedCSSURL(t *testing.T) {
+	ref := verifgen.WFRef{Kind: "path-rel", Segs: []string{"img", "zt1.png"}}
+	node := verifgen.HTMLNode{Tag: "div", Attrs: []verifgen.HTMLAttr{{Name: "style", Value: "background: url( '" + ref.Text() + "' )", Quote: `"`}}, Kids: []verifgen.HTMLNode{{Tag: "#text", Text: "x"}}}
+	c07KFRun(t, "C07/kf-padded-css-url", c07KFCase(c07KFPage, "body", node,
+		verifgen.HTMLPlanted{Kind: "asset", Elem: "[style]", Attr: "url()", Quote: "dq+css-sq", Within: "div", Pad: " | ", Ref: ref}))
+}
+
+// style="background: url(img/x.png?q=x%20y)" — a percent-escape makes the style-attribute heuristic skip the URL.
+func TestVerifKF_C07_StyleAttrPercent(t *testing.T) {
+	ref := verifgen.WFRef{Kind: "path-rel", Segs: []string{"img", "zt1.png"}, HasQ: true, Query: []verifgen.KV{{K: "q", V: "x%20y", HasEq: true}}}
+	node := verifgen.HTMLNode{Tag: "div", Attrs: []verifgen.HTMLAttr{{Name: "style", Value: "background: url(" + ref.Text() + ")", Quote: `"`}}, Kids: []verifgen.HTMLNode{{Tag: "#text", Text: "x"}}}
+	c07KFRun(t, "C07/kf-style-attr-percent", c07KFCase(c07KFPage, "body", node,
+		verifgen.HTMLPlanted{Kind: "asset", Elem: "[style]", Attr: "url()", Quote: "dq+css-bare", Within: "div", Ref: ref}))
+}
+
+// --disable-assets-capture with hops left: postprocessItem returns before outlinks are extracted.
+func TestVerifKF_C07_NoOutlinksWhenAssetsOff(t *testing.T) {
+	ref := verifgen.WFRef{Kind: "path-abs", Segs: []string{"next", "zt1.html"}}
+	node := verifgen.HTMLNode{Tag: "a", Attrs: []verifgen.HTMLAttr{{Name: "href", Value: ref.Text(), Quote: `"`}}, Kids: []verifgen.HTMLNode{{Tag: "#text", Text: "next"}}}
+	c := c07KFCase(c07KFPage, "body", node, verifgen.HTMLPlanted{Kind: "outlink", Elem: "a", Attr: "href", Tag: "a", Quote: "dq", Ref: ref})
+	c.DisableAssets = true
+	c07KFRun(t, "C07/kf-no-outlinks-when-assets-off", c)
+}
+
+// srcset="a.png<TAB>320w" — candidates are cut at the first space only, so URL and descriptor stay glued together.
+func TestVerifKF_C07_SrcsetDescriptorWhitespace(t *testing.T) {
+	ref := verifgen.WFRef{Kind: "path-rel", Segs: []string{"img", "zt1.png"}}
+	node := verifgen.HTMLNode{Tag: "img", Attrs: []verifgen.HTMLAttr{{Name: "srcset", Value: ref.Text() + "\t320w", Quote: `"`}}}
+	c07KFRun(t, "C07/kf-srcset-descriptor-whitespace", c07KFCase(c07KFPage, "body", node,
+		verifgen.HTMLPlanted{Kind: "asset", Elem: "img", Attr: "srcset", Tag: "img", Quote: "dq", Pad: "srcset-ws", Ref: ref}))
 }
